@@ -608,6 +608,49 @@ def poly_universe(ctx, invariants, name, nr=2, nc=2, coefs=range(-2, 3), bs=rang
     for k, c in enumerate(cases): c["k"] = k
     return cases
 
+def _P(rows, cols, names="xyzt"):
+    return {"rows": [{"b": r[0], "a": list(r[1:])} for r in rows], "cols": [{"id": names[j] if isinstance(c, tuple) else c[0], "lo": (c if isinstance(c, tuple) else c[1:])[0],
+            "hi": (c if isinstance(c, tuple) else c[1:])[1]} for j, c in enumerate(cols)], "index": ["r%d" % (i + 1) for i in range(len(rows))]}
+
+POLY_CATALOG = [
+    _P([[1, 1, 1], [1, 1, 0]], [(0, 1), (0, 1)]),                                  # x forced to 1, first row then redundant
+    _P([[1, -1, 2], [-2, 0, -1]], [(0, 1), (-1, 2)]),                              # integer column, rounding in the tightening
+    _P([[3, 1, 1, 1], [-2, -1, -1, 0]], [(0, 1), (0, 1), (0, 1)]),                 # everything forced, second row redundant
+    _P([[4, 1, 1], [-3, -1, 0]], [(0, 3), (0, 1)]),                                # forces the upper ends
+    _P([[2, 1, 0], [0, 1, 1]], [(0, 1), (0, 1)]),                                  # infeasible
+    _P([[-1, -2, -1, 0], [0, 0, 1, 1]], [(0, 1), (0, 1), (-1, 1)]),                # nothing forced at once
+    _P([[0, 1, 1, -2], [-1, -1, -1, 2], [1, 0, 0, 1]], [(0, 1), (0, 1), (0, 1)]),  # big-M shaped rows of a conjunction, its variable asserted
+    _P([[0, 2, -3], [-4, -2, 1]], [(-1, 2), (0, 2)]),                              # non-unit coefficients, negative lower bound
+]
+POLY_CALLS = ["A", "b", "to_linalg", "column_bounds", "row_bounds", "ncomb", "tighten", "red_rows", "red_cols", "rr_and_c", "sat", "sep", "rowsep", "idx",
+              "copy", "rewrap", "neglectable", "reduce_cols", "reduce_rows", "reduce_both", "edit", "widen", "reduce_cols_q", "reduce_rows_q", "reduce_both_q"]
+
+def poly_histories(ctx, maxlen=3, sample=None):
+    """histories of public calls on one polyhedron object: the machine PuanPolyAPI is model-checked (reductions compose, labels kept,
+    queries pure) and its histories are replayed into the library"""
+    u = {"Catalog": {"$set": POLY_CATALOG}, "PCalls": set(POLY_CALLS), "PMaxLen": maxlen}
+    r = ctx.model_check("PuanPolyAPI", u, invariants=["Composed", "LabelsKept"], properties=["QueriesPure"], dump=True, name="PolyAPI_len%d" % maxlen)
+    cases, seen = [], set()
+    for st in tlc.dump_states(r["dump_path"], only={"start", "hist"}):
+        if len(st["hist"]) != maxlen: continue
+        cases.append({"calls": list(st["hist"]), "init": st["start"], "src": "spec"})
+    os.remove(r["dump_path"])
+    cases.sort(key=lambda c: json.dumps([c["init"], c["calls"]], sort_keys=True))
+    for k, c in enumerate(cases): c["k"] = k
+    if sample and len(cases) > sample:
+        # every ordered pair of consecutive calls stays present; the rest is a seeded sample
+        groups = {}
+        for c in cases:
+            for a_, b_ in zip(c["calls"], c["calls"][1:]): groups.setdefault((a_, b_), []).append(c)
+        picked = {}
+        for key in sorted(groups):
+            for c in ctx.rng.sample(groups[key], min(3, len(groups[key]))): picked[c["k"]] = c
+        rest = [c for c in cases if c["k"] not in picked]
+        cases = list(picked.values()) + ctx.rng.sample(rest, max(0, min(len(rest), sample - len(picked))))
+        ctx.notes.append("a stratified seeded sample of %d of the enumerated polyhedron histories is replayed (every ordered pair of calls present)" % len(cases))
+    ctx.region("polyhedron_object_histories", len(cases))
+    return cases
+
 def random_polys(ctx, n, required=("rows>=3", "cols>=3", "nonunit_coef", "zero_coef", "neg_lower", "degenerate_bound", "infeasible_hint", "big_coef")):
     rng = ctx.rng
     out = []
@@ -693,6 +736,8 @@ def run_c11(ctx):
     cases += random_polys(ctx, 1500 if q else 20000)
     cases += narrow_storage_family(ctx)
     ctx.pmap(drivers.drv_poly_reduce, _stamp(cases, "drv_poly_reduce"))
+    ph = poly_histories(ctx, 2) + poly_histories(ctx, 3, sample=1500 if q else 20000)
+    ctx.pmap(drivers.drv_poly_history, _stamp(ph, "drv_poly_history"))
     ctx.validate()
 
 def run_c12(ctx):
@@ -738,6 +783,8 @@ def run_c12(ctx):
         cases.append({"rows": rows, "bounds": [[0, 1]] * nc, "src": "random", "k": k, "default_vars": True})
     ctx.region("default_variables")
     ctx.pmap(drivers.drv_tighten, _stamp(cases, "drv_tighten"))
+    ph = poly_histories(ctx, 2) + ([] if ctx.tier == "quick" else poly_histories(ctx, 3, sample=20000))
+    ctx.pmap(drivers.drv_poly_history, _stamp(ph, "drv_poly_history"))
     ctx.validate()
 
 def run_c19(ctx):
@@ -778,6 +825,8 @@ def run_c19(ctx):
         ctx.region("points>=3"); ctx.region("3d")
         cases.append(c)
     ctx.pmap(drivers.drv_classify, _stamp(cases, "drv_classify"))
+    ph = poly_histories(ctx, 2) + ([] if ctx.tier == "quick" else poly_histories(ctx, 3, sample=20000))
+    ctx.pmap(drivers.drv_poly_history, _stamp(ph, "drv_poly_history"))
     ctx.validate()
 
 def run_c20(ctx):
@@ -812,6 +861,8 @@ def run_c20(ctx):
         if len(ids) >= 4: ctx.region("vars>=4")
         cases.append({"vars": vs, "dict": d, "list": lst, "bits": [rng.choice([0, 1, 1, 0, 2, -1]) for _ in range(3)], "src": "random"})
     ctx.pmap(drivers.drv_bridge, _stamp(cases, "drv_bridge"))
+    ph = poly_histories(ctx, 2) + ([] if ctx.tier == "quick" else poly_histories(ctx, 3, sample=20000))
+    ctx.pmap(drivers.drv_poly_history, _stamp(ph, "drv_poly_history"))
     ctx.validate()
 
 # ------------------------------------------------------------------------------------------- C13
@@ -1289,10 +1340,11 @@ PROPS = {
     "C13": {"run": run_c13, "clauses": {m + ":" + c for m in drivers.METHODS for c in ("shape", "exact", "prio_dense", "rank_dense", "zeros_signs", "ties", "order", "dominance", "unknown_method")} | {"no_exception"}},
     "C14": {"run": run_c14, "clauses": {"ranks", "opt_same", "dpv_expected", "poly_is_own", "objective_count", "cols_cover_leaves", "no_exception"}},
     "C15": {"run": run_c15, "clauses": {"ranks", "objective_levels", "opt_same", "dpv_expected", "cols_cover_leaves", "poly_is_own", "objective_count", "objective_by_id", "ids_aligned", "optimal", "model_true", "raises_infeasible", "no_exception"}},
-    "C11": {"run": run_c11, "clauses": {"shape", "rows_implied", "cols_forced", "projection", "labels", "loop_inv", "reduce_cols_fn", "reduce_rows_fn", "no_exception"}},
-    "C12": {"run": run_c12, "clauses": {"shape", "contain", "no_widen", "contra_only_if_empty", "rowb_exact", "colb", "ncomb", "no_exception"}},
-    "C19": {"run": run_c19, "clauses": {"sat_value", "sep_value", "rowsep_value", "no_exception"}},
-    "C20": {"run": run_c20, "clauses": {"construct", "partition", "from_list_bool", "from_list_int", "from_list_nested", "to_list", "to_list_nested", "split_Ab", "no_exception"}},
+    "C11": {"run": run_c11, "clauses": {"shape", "rows_implied", "cols_forced", "projection", "labels", "loop_inv", "reduce_cols_fn", "reduce_rows_fn", "no_exception",
+                                        "ph_red_rows", "ph_red_cols", "ph_reduce_cols_fn", "ph_reduce_rows_fn", "ph_projection", "ph_labels", "ph_same_polyhedron", "ph_no_exception"}},
+    "C12": {"run": run_c12, "clauses": {"shape", "contain", "no_widen", "contra_only_if_empty", "rowb_exact", "colb", "ncomb", "no_exception", "ph_tighten", "ph_rowb", "ph_colb", "ph_ncomb", "ph_no_exception"}},
+    "C19": {"run": run_c19, "clauses": {"sat_value", "sep_value", "rowsep_value", "no_exception", "ph_sat", "ph_sep", "ph_rowsep", "ph_no_exception"}},
+    "C20": {"run": run_c20, "clauses": {"construct", "partition", "from_list_bool", "from_list_int", "from_list_nested", "to_list", "to_list_nested", "split_Ab", "no_exception", "ph_split", "ph_idx", "ph_no_exception"}},
     "C16": {"run": run_c16, "clauses": {"back_is_model", "leaves_same", "points_complete", "equiv", "equiv_struct", "ids_explicit",
                                         "ids_generated_absent", "defaults_same", "dp_same", "poly_same", "no_exception"}},
     "C17": {"run": run_c17, "clauses": {"struct_same", "text_same", "queries_same", "poly_struct_same", "poly_again_same", "select_same", "no_exception",
